@@ -6,6 +6,7 @@ pub mod fieldmap;
 pub mod flow;
 pub mod fuzzsupport;
 pub mod gen;
+pub mod history;
 pub mod known;
 pub mod ksf;
 pub mod props;
